@@ -153,13 +153,16 @@ Decode(dcfg, name, tok, now, maxAge, minVer, sigs) ==
          ELSE None
 
 ----------------------------------------------------------------------------
-(* Scenarios: create, tamper, decode *)
+(* Scenarios: create (initial states), then tamper + decode (one step), or an arbitrary
+   string built byte by byte (every prefix is decoded). *)
 VARIABLES sc,     \* [mode, cr, tam, de]
-          itok,   \* the issued token
-          cur,    \* the token handed to the decoder
-          exp     \* [res, want]
+          itok,   \* the issued token (kept only in the "create" state)
+          arb,    \* mode "arb": the arbitrary string; mode "create": the flat message fed to the MAC
+          exp     \* [res, want, len, sum, ver]: verdicts; length, checksum and detected format version of
+                  \* the token handed to the decoder
 
-vars == <<sc, itok, cur, exp>>
+vars == <<sc, itok, arb, exp>>
+Sum(tok) == FoldLeft(LAMBDA acc, x : (acc * 31 + x) % 1000003, 7, tok)
 
 Creates ==
     {c \in [name : Names, value : Values, t : Times, ver : Versions, scfg : SignCfgs, kv : SignKvs] :
@@ -222,32 +225,52 @@ Want(c, tok, token, d) ==
       THEN Val(c.value) ELSE None
 
 DummyCr == [name |-> <<>>, value |-> <<>>, t |-> 1, ver |-> 2, scfg |-> 1, kv |-> 0]
-ArbStrings == UNION {[1..n -> ArbAlpha] : n \in 0..ArbLen}
 
-TokScenario ==
+DummyDe == [name |-> <<>>, now |-> 1, maxAge |-> 0, minVer |-> 1, dcfg |-> 1]
+Verdicts(res, want, token) == [res |-> res, want |-> want, len |-> Len(token), sum |-> Sum(token),
+                               ver |-> IF Len(token) = 0 THEN 0 ELSE GetVersion(token)]
+
+CreateInit ==
     \E c \in Creates :
-      LET cr == Create(c, 1) IN
-      \E o \in TamperOps(cr.tok, c.name) :
-        LET token == IF o.op = "shift" THEN ShiftedTok(c.name, cr.tok, o.i) ELSE Apply(cr.tok, o) IN
-        \E d \in Decodes(c, o, cr.tok) :
-          /\ (o.op # "id" => token # cr.tok)
-          /\ sc = [mode |-> "tok", cr |-> c, tam |-> o, de |-> d]
-          /\ itok = cr.tok
-          /\ cur = token
-          /\ exp = [res  |-> Decode(d.dcfg, d.name, token, d.now, d.maxAge, d.minVer, <<cr.sig>>),
-                    want |-> Want(c, cr.tok, token, d)]
+      /\ sc = [mode |-> "create", cr |-> c, tam |-> NoTam, de |-> DummyDe]
+      /\ itok = Create(c, 1).tok
+      /\ arb = Create(c, 1).sig.msg
+      /\ exp = Verdicts(None, None, itok)
 
-ArbScenario ==
-    \E s \in ArbStrings, dc \in DecCfgs, m \in MinVersions, n \in Names :
-      LET d == [name |-> n, now |-> MaxOf(Times), maxAge |-> MaxOf(MaxAges), minVer |-> m, dcfg |-> dc] IN
-      /\ sc = [mode |-> "arb", cr |-> DummyCr, tam |-> NoTam, de |-> d]
+Scenario ==
+    /\ sc.mode = "create"
+    /\ LET c == sc.cr
+           cr == Create(c, 1) IN
+       \E o \in TamperOps(cr.tok, c.name) :
+         LET token == IF o.op = "shift" THEN ShiftedTok(c.name, cr.tok, o.i) ELSE Apply(cr.tok, o) IN
+         \E d \in Decodes(c, o, cr.tok) :
+           /\ (o.op # "id" => token # cr.tok)
+           /\ sc' = [mode |-> "tok", cr |-> c, tam |-> o, de |-> d]
+           /\ itok' = <<>>
+           /\ arb' = <<>>
+           /\ exp' = Verdicts(Decode(d.dcfg, d.name, token, d.now, d.maxAge, d.minVer, <<cr.sig>>),
+                              Want(c, cr.tok, token, d), token)
+
+ArbDe(dc, m) == [name |-> CHOOSE n \in Names : TRUE, now |-> MaxOf(Times), maxAge |-> MaxOf(MaxAges),
+                 minVer |-> m, dcfg |-> dc]
+ArbVerdicts(d, s) == Verdicts(Decode(d.dcfg, d.name, s, d.now, d.maxAge, d.minVer, <<>>), None, s)
+ArbInit ==
+    \E dc \in DecCfgs, m \in MinVersions :
+      /\ sc = [mode |-> "arb", cr |-> DummyCr, tam |-> NoTam, de |-> ArbDe(dc, m)]
       /\ itok = <<>>
-      /\ cur = s
-      /\ exp = [res |-> Decode(dc, n, s, d.now, d.maxAge, m, <<>>), want |-> None]
+      /\ arb = <<>>
+      /\ exp = ArbVerdicts(sc.de, <<>>)
+ArbPut ==
+    /\ sc.mode = "arb"
+    /\ Len(arb) < ArbLen
+    /\ \E b \in ArbAlpha :
+         /\ arb' = Append(arb, b)
+         /\ exp' = ArbVerdicts(sc.de, arb')
+    /\ UNCHANGED <<sc, itok>>
 
-Init == \/ ("tok" \in Modes /\ TokScenario)
-        \/ ("arb" \in Modes /\ ArbScenario)
-Next == UNCHANGED vars
+Init == \/ ("tok" \in Modes /\ CreateInit)
+        \/ ("arb" \in Modes /\ ArbInit)
+Next == Scenario \/ ArbPut
 Spec == Init /\ [][Next]_vars
 
 ----------------------------------------------------------------------------
